@@ -220,30 +220,53 @@ func ruleWSink(rule string) RuleFn {
 		// in DryRun(true) branch the stored value is dryInvoker
 		if ap := c.Fn(rule, "(dig.dryRunOption).applyOption"); ap != nil {
 			sts := an.StoresToField(ap, "Scope", "invokerFn")
-			okTrue := false
+			okTrue := len(sts) > 0
+			isFn := func(v ssa.Value, f *ssa.Function) bool {
+				if ct, ok := v.(*ssa.ChangeType); ok {
+					v = ct.X
+				}
+				return v == ssa.Value(f)
+			}
+			optTrue := an.BoolEdges(ap, func(v ssa.Value) bool {
+				s := an.Norm(v)
+				return s == "p:o" || s == "bool(p:o)"
+			}, true)
+			optFalse := an.BoolEdges(ap, func(v ssa.Value) bool {
+				s := an.Norm(v)
+				return s == "p:o" || s == "bool(p:o)"
+			}, false)
+			if len(optTrue) == 0 || len(optFalse) == 0 {
+				okTrue = false
+			}
 			for _, st := range sts {
-				isDry := false
+				st := st
+				// no path stores dryInvoker without the option being true, none stores defaultInvoker with it being true
+				r1 := an.PathSens(an.PSQuery{Fn: ap, Gates: an.NewGates().AddEdges(optTrue...), Target: func(in ssa.Instruction, env *an.PEnv) bool {
+					return in == ssa.Instruction(st) && isFn(env.Val(st.Val), dry)
+				}})
+				r2 := an.PathSens(an.PSQuery{Fn: ap, Gates: an.NewGates().AddEdges(optFalse...), Target: func(in ssa.Instruction, env *an.PEnv) bool {
+					return in == ssa.Instruction(st) && isFn(env.Val(st.Val), def)
+				}})
+				// and something is stored on every path
+				if r1.Found != nil || r2.Found != nil || r1.Overflow || r2.Overflow {
+					okTrue = false
+				}
 				for _, o := range an.Origins(st.Val) {
-					if ct, ok := o.(*ssa.ChangeType); ok {
-						o = ct.X
+					if !isFn(o, dry) && !isFn(o, def) {
+						okTrue = false
 					}
-					if o == ssa.Value(dry) {
-						isDry = true
-					}
-				}
-				if !isDry {
-					continue
-				}
-				// the store of dryInvoker must be on the true edge of the option value
-				edges := an.BoolEdges(ap, func(v ssa.Value) bool {
-					s := an.Norm(v)
-					return s == "p:o" || s == "bool(p:o)"
-				}, true)
-				if hit, _ := an.PathTo(ap, nil, an.IsInstr(st), an.NewGates().AddEdges(edges...)); hit == nil && len(edges) > 0 {
-					okTrue = true
 				}
 			}
-			c.Check(okTrue, rule, "DryRun(true) installs dryInvoker", "store of dryInvoker into Scope.invokerFn is dominated by the true edge of the option", "DryRun(true) does not install dryInvoker on the true edge of the option value", nil, nil)
+			if hit, _ := an.PathTo(ap, nil, an.IsExit, func() *an.Gates {
+				g := an.NewGates()
+				for _, st := range sts {
+					g.AddInstr(st)
+				}
+				return g
+			}()); hit != nil {
+				okTrue = false
+			}
+			c.Check(okTrue, rule, "DryRun(true) installs dryInvoker", "dryInvoker is stored exactly when the option is true, defaultInvoker otherwise", "DryRun(true) does not install dryInvoker exactly for a true option value (or installs something else)", nil, nil)
 		}
 		// (4) writers and readers of Scope.invokerFn
 		writers := map[string]bool{"dig.newScope": true, "(*dig.Scope).Scope": true, "(dig.dryRunOption).applyOption": true}
